@@ -2,6 +2,7 @@ import Upf.Proofs.Denote
 import Upf.Proofs.Ref
 import Upf.Proofs.Tab
 import Upf.Model.AgentMod
+import Upf.Proofs.BessAddDel
 /-!
 # C03 — BESS tables are exactly the image of the live sessions' rules
 
@@ -13,7 +14,12 @@ Three layers.
    streams on disjoint keys commute, so the goroutine fan-out of bess.go does not matter.
 3. Agent level (`Agent.establish`, `Agent.modify`, `Agent.deleteSession`, `Agent.image`): the executable model of the
    handlers, tied to the real agent by trace acceptance; `Agent.image` is the specification the oracle evaluates.
-   The refinement of layer 2 is proved on the reduced table model (`Ref`: FAR table), not yet on `Agent` — partial.
+   The refinement of layer 2 is proved on the reduced table model (`Ref`: FAR table); on `Agent`, with the real key
+   strings of all four tables, what is proved is "delete key = add key" for every rule set (`delete_key_is_add_key`),
+   what an accepted establishment and a deletion write (`establishment_upserts_its_rules`,
+   `deletion_removes_only_the_sessions_keys`), and that entries of other sessions are untouched — the full image
+   refinement over modifications is decided per observed history (it is false of the code for key-changing updates and
+   re-labelled session QERs: open findings) — partial.
 -/
 namespace Props.C03
 open Tern
@@ -60,6 +66,53 @@ theorem no_association_writes_nothing (cfg : Agent.Cfg) (w : Agent.World) (a lse
     (h : r.nodeID ≠ (w.conn a).remoteNode) :
     (Agent.establish cfg w a lseid r).1 = w ∧ (Agent.establish cfg w a lseid r).2.cause = Agent.causeNoAssoc := by
   simp [Agent.establish, h]
+
+/-! ### agent level, the four lookup tables with their real key strings -/
+
+/-- **delete key = add key**, all rule sets: after `SendMsgToUPF(add)` and `SendMsgToUPF(del)` of the same stored rules
+every lookup table is the table before, less the keys of those rules — nothing else is added, changed or removed -/
+theorem delete_key_is_add_key (cfg : Agent.Cfg) (t : Agent.Tables) (pdrs : List Agent.Pdr) (fars : List Agent.Far) (qers : List Agent.Qer) :
+    Agent.sendDel cfg (Agent.sendAdd cfg t pdrs fars qers) pdrs fars qers =
+      { pdr := t.pdr.without ((Agent.pdrKV pdrs).map (·.1)), far := t.far.without ((Agent.farKV fars).map (·.1)),
+        appQer := t.appQer.without ((Agent.appQerKV cfg qers).map (·.1)),
+        sessQer := t.sessQer.without ((Agent.sessQerKV cfg qers).map (·.1)) } :=
+  Agent.sendDel_sendAdd cfg t pdrs fars qers
+
+/-- an accepted establishment appends the session to the association's store and upserts exactly its rules -/
+theorem establishment_upserts_its_rules (cfg : Agent.Cfg) (w : Agent.World) (a lseid : Nat) (r : Agent.EstReq)
+    (h : (Agent.establish cfg w a lseid r).2.upSeid.isSome) :
+    ∃ s : Agent.Session, s.lseid = lseid ∧
+      (Agent.establish cfg w a lseid r).1.tables = Agent.sendAdd cfg w.tables s.pdrs s.fars s.qers ∧
+      ((Agent.establish cfg w a lseid r).1.conn a).sessions = (w.conn a).sessions ++ [s] :=
+  Agent.establish_tables cfg w a lseid r h
+
+/-- deleting a known session removes exactly the keys of its stored rules from each table -/
+theorem deletion_removes_only_the_sessions_keys (cfg : Agent.Cfg) (w : Agent.World) (a seid : Nat) (s : Agent.Session)
+    (h : (w.conn a).sessions.find? (·.lseid = seid) = some s) :
+    (Agent.deleteSession cfg w a seid).1.tables =
+      { pdr := w.tables.pdr.without ((Agent.pdrKV s.pdrs).map (·.1)), far := w.tables.far.without ((Agent.farKV s.fars).map (·.1)),
+        appQer := w.tables.appQer.without ((Agent.appQerKV cfg s.qers).map (·.1)),
+        sessQer := w.tables.sessQer.without ((Agent.sessQerKV cfg s.qers).map (·.1)) } :=
+  Agent.deleteSession_tables cfg w a seid s h
+
+/-- … so an entry under any other key (another session's rule) is still there, unchanged, and nothing remains under a deleted key -/
+theorem other_entries_untouched {t : Agent.Table} {K : List String} {e : String × String} (he : e ∈ t) (hk : e.1 ∉ K) : e ∈ t.without K :=
+  Agent.Table.mem_without he hk
+theorem deleted_keys_gone {t : Agent.Table} {K : List String} {e : String × String} (hk : e.1 ∈ K) : e ∉ t.without K :=
+  Agent.Table.not_mem_without hk
+
+/-! non-vacuity: a concrete establishment (uplink + downlink PDR, two FARs, one QER) on an association is accepted, writes two
+pdrLookup entries, and its deletion leaves the tables empty again -/
+def exCfg : Agent.Cfg := { accessIP := 0xC6120101, coreIP := 0x7F000001, ueAlloc := false, endMarker := false, qci := [] }
+def exW : Agent.World := { conns := [(0, { remoteNode := "smf" })] }
+def exP1 : Agent.PdrIE := { id := 1, prec := 100, srcIface := some 0, fteid := some (false, 1000, 0xC6120101), ueip := some (2, 0x0A3C0001), ohr := some 0, farID := 1, qerIDs := [1] }
+def exP2 : Agent.PdrIE := { id := 2, prec := 100, srcIface := some 1, ueip := some (2, 0x0A3C0001), farID := 2, qerIDs := [1] }
+def exF1 : Agent.FarIE := { id := 1, action := 2, fwd := some { dst := some 1 } }
+def exF2 : Agent.FarIE := { id := 2, action := 2, fwd := some { dst := some 0, ohc := some (1001, 0xC6120109) } }
+def exReq : Agent.EstReq := { nodeID := "smf", cpSeid := 5001, cpIP := 167772161, pdrs := [exP1, exP2], fars := [exF1, exF2], qers := [{ id := 1, qfi := 9, mbrUL := 1000, mbrDL := 2000 }] }
+example : (Agent.establish exCfg exW 0 77 exReq).2.upSeid = some 77 := by decide +kernel
+example : (Agent.establish exCfg exW 0 77 exReq).1.tables.pdr.length = 2 ∧ (Agent.establish exCfg exW 0 77 exReq).1.tables.far.length = 2 := by decide +kernel
+example : (Agent.deleteSession exCfg (Agent.establish exCfg exW 0 77 exReq).1 0 77).1.tables = exW.tables := by decide +kernel
 
 -- non-vacuity: a PDR with a three-port source range has three entries
 example : (Agent.pdrEntries { af := { srcPorts := ⟨80#16, 82#16⟩, dstPorts := ⟨0#16, 65535#16⟩ } }).map List.length = some 3 := by decide
